@@ -76,6 +76,13 @@ def handle : List String → Verdict
         tags := [s!"len{min acts.length 16}", if implPanic then "panic" else "no-panic"],
         sig := if implPanic then "sched;panic" else if leakedN > 0 then "sched;leak" else "sched" }
     | _, _, _, _, _ => .badOp
+  | ["slow", nS, slowGotS, fastGotS, fastOKS, slowOKS, fastMsS] =>
+    let n := nS.toNat?.getD 0
+    { predfail :=
+        if fastOKS != "1" then some s!"a prompt client received {fastGotS} of {n} events within 1.5 s while another client was stalled ({fastMsS} ms)"
+        else if slowOKS != "1" then some s!"a client whose connection was backed up for 3.6 s received {slowGotS} of {n} events: deliveries pending meanwhile were dropped"
+        else none,
+      nontrivial := true, tags := ["slow-reader"], sig := "slow" }
   | _ => .badOp
 
 end TemplVerif.Drive.C19
